@@ -19,7 +19,8 @@ fn first_occurrences(rows: &[Vec<RV>]) -> Vec<Vec<RV>> {
     out
 }
 
-fn has_nan(rows: &[Vec<RV>]) -> bool { rows.iter().any(|r| r.iter().any(|v| matches!(v, RV::Real(x) if x.is_nan()))) }
+fn nan_in(v: &RV) -> bool { match v { RV::Real(x) => x.is_nan(), RV::Arr(_, xs) => xs.iter().any(nan_in), _ => false } }
+fn has_nan(rows: &[Vec<RV>]) -> bool { rows.iter().any(|r| r.iter().any(nan_in)) }
 
 impl Monitor for C08 {
     fn id(&self) -> &'static str { "C08" }
